@@ -16,7 +16,7 @@
    Chunk sizes are carried by the labels and the schedule is the list of labels: both are oracles.
    Data that can no longer be delivered (after an abort) stays where it is and is never read, so
    that the conservation laws of proofs/RelayProofs.v need no bookkeeping of losses. *)
-From Coq Require Import List ZArith Bool Arith.
+From Coq Require Import List Bool Arith.
 From Coq.Strings Require Import Byte.
 From L4.gen Require Import Shape.
 Import ListNotations.
